@@ -679,8 +679,12 @@ PROPERTY = Property(
     rule="histories of pipeline API calls over 1..5 operand pipelines (priorities incl. many ties; `name` of the pipelines unrelated to the "
          "resolver identifiers: equal, reversed order, colliding, missing), resolver tables built from dicts: identifier -> registered object | "
          "callable | callable with a memory (ties with different contents), plus YAML files found by path whose name: differs from the file name, "
-         "aliases (one object under two identifiers); items set_state/field_name_suffix/add_condition with optional processing_state rule "
-         "condition, post-processing embed / simple_template reading pipeline.state or pipeline.vars, concat finalizers, vars; the backend's own "
+         "aliases (one object under two identifiers); items set_state/field_name_suffix/add_condition and post-processing items embed / simple_template (reading "
+         "pipeline.state or pipeline.vars), each with an optional rule condition processing_state or processing_item_applied - the latter "
+         "referring to EARLIER transformation items and to EARLIER post-processing items of the same pipeline, of another operand of +, of "
+         "another resolver entry, of the backend / output-format stage (chain family: uniquely marked embeds, up to 3 rules per conversion, "
+         "60 % two-condition rules, so that the first query of each rule is distinguishable); concat finalizers (no conditions exist for "
+         "finalizers in pySigma), vars; the backend's own "
          "and output-format pipeline: every permutation of the resolver argument list over all table entries (all 120 for 5 entries in the "
          "thorough tier, 24 sampled in quick) and of sub-lists, every bracketing of + (<= 14) in two operand orders and sum() of the same lists, "
          "operands fresh or used once (earlier conversion on another backend instance / earlier sum), resolving the same objects / callables / "
@@ -695,8 +699,8 @@ PROPERTY = Property(
          "sum/resolve of >= 2 pipelines and >= 2 pipelines/definitions are non-empty; distinct by case hash",
     assumptions=["conversion of the restricted rule shape ({field: value} AND-ed with added conditions) by the verification backend "
                  "(TextQueryTestBackend with in-expressions switched off) is modelled as text (query_of), validated by the correspondence only",
-                 "item semantics of set_state, field_name_suffix, add_condition, embed, simple_template, concat and the processing_state "
-                 "rule condition are modelled (a_item_step/a_post_step/fin_step), validated by the correspondence only; identifiers are non-empty",
+                 "item semantics of set_state, field_name_suffix, add_condition, embed, simple_template, concat and the processing_state / "
+                 "processing_item_applied rule conditions (embed and all transformation kinds mark the rule, simple_template does not) are modelled (a_item_step/a_post_step/fin_step), validated by the correspondence only; identifiers are non-empty",
                  "callables / YAML files / callables with a memory are modelled (fresh objects per resolution, Model.Pipeline.minst_all) and checked by the "
                  "correspondence; theorems C14_resolver_perm/_concat/_history_partial are stated for tables of registered objects, "
                  "C14_resolver_entries_perm/_order for all tables; a callable with a memory is modelled with the history-wide instantiation counter "
